@@ -525,3 +525,81 @@ pub fn configs(prop: HProp, tier: Tier) -> Vec<ChainCfg> {
     }
     out
 }
+
+/// C18 under an OpenTelemetry layer: the tracer chooses trace ids and the sampling decision, so
+/// the oracle is consistency along the chain: what is transmitted at hop k is what hop k's
+/// handler observes (same trace id and sampling, fresh span id), what the nested request at hop
+/// k+1 carries, and what a cancellation carries.
+pub fn c18_otel_grid(tier: Tier) -> (u64, Vec<(String, String)>) {
+    use opentelemetry::trace::TracerProvider as _;
+    use tracing_subscriber::layer::SubscriberExt;
+    let provider = opentelemetry_sdk::trace::TracerProvider::builder().build();
+    let tracer = provider.tracer("mc");
+    let sub = tracing_subscriber::registry().with(tracing_opentelemetry::layer().with_tracer(tracer));
+    let mut fails = vec![];
+    let mut cells = 0u64;
+    tracing::subscriber::with_default(sub, || {
+        tracing::callsite::rebuild_interest_cache();
+        for depth in 1..=3usize {
+            for kind in [HopKind::Mem, HopKind::Json, HopKind::Bincode] {
+                for last_finishes in [true, false] {
+                    for abandon_after in [None, Some(1), Some(2), Some(3)] {
+                        if tier == Tier::Quick && kind == HopKind::Bincode && depth == 3 {
+                            continue;
+                        }
+                        let cfg = ChainCfg {
+                            hops: vec![kind; depth],
+                            r_ns: 10_000_000_000,
+                            tau_ms: vec![0; depth],
+                            regime: Regime::Otel,
+                            last_finishes,
+                            abandon_after,
+                            alphabet: 0,
+                        };
+                        let e = execute_in_place(&cfg, &[]);
+                        cells += 1;
+                        let f = hfacts(&e.recs);
+                        let label = format!("[otel] depth {depth} {kind:?} last_finishes={last_finishes} abandon_after={abandon_after:?}");
+                        for p in &f.panics {
+                            fails.push(("C18-otel-panic".into(), format!("{label}: {p}")));
+                        }
+                        let mut chain_tid: Option<u128> = None;
+                        for hop in 0..depth {
+                            let cs = (hop * 2) as u8;
+                            let Some((_, Msg::Req { id, tid, sid, sampled, .. }, _)) =
+                                f.sent.get(&cs).and_then(|s| s.iter().find(|(_, m, _)| matches!(m, Msg::Req { .. })))
+                            else {
+                                break;
+                            };
+                            if *tid == 0 {
+                                fails.push(("C18-otel-no-trace-id".into(), format!("{label}: hop {hop} transmitted an all-zero trace id")));
+                            }
+                            if let Some(t) = chain_tid {
+                                if t != *tid {
+                                    fails.push(("C18-otel-nested-trace".into(), format!("{label}: hop {hop} request carries trace id {tid:x}, the previous hop's handler had {t:x}")));
+                                }
+                            }
+                            if let Some((_, hs, _, hsid, htid)) = f.hstart.get(&hop).and_then(|x| x.first()) {
+                                if *htid != *tid || *hs != *sampled {
+                                    fails.push(("C18-otel-handler-trace".into(), format!("{label}: hop {hop}: handler observed ({htid:x},{hs}), the request carried ({tid:x},{sampled})")));
+                                }
+                                if *hsid == *sid {
+                                    fails.push(("C18-otel-span-not-fresh".into(), format!("{label}: hop {hop}: handler span id equals the transmitted one")));
+                                }
+                                chain_tid = Some(*htid);
+                            }
+                            for (_, m, _) in f.sent.get(&cs).map(|s| s.as_slice()).unwrap_or(&[]) {
+                                if let Msg::Cancel { id: cid, tid: ct, sid: csid, sampled: csm } = m {
+                                    if cid == id && (*ct != *tid || *csid != *sid || *csm != *sampled) {
+                                        fails.push(("C18-otel-cancel-trace".into(), format!("{label}: hop {hop}: cancellation carries ({ct:x},{csid:x},{csm}), its request ({tid:x},{sid:x},{sampled})")));
+                                    }
+                                }
+                            }
+                        }
+                    }
+                }
+            }
+        }
+    });
+    (cells, fails)
+}
